@@ -171,14 +171,16 @@ def rand_line(r, wellformed=0.7):
         if r.random() < 0.2:
             parts.append("N%d " % r.randint(0, 99))
         parts.append(r.choice(["G1", "G0", "g1", "G28", "M117", "M204", "T0", "G38.2", "G 1", "G92",
-                               "G10", "M206", "G2"]))
+                               "G10", "M206", "G2",
+                               # zero-valued code / sub-code spellings (a falsy 0 is not "absent")
+                               "G92.0", "G92.1", "M876.0", "g 92.00", "M0", "G00", "G1.05", "T00", "G0.0"]))
         for _ in range(r.randint(0, 4)):
             parts.append(r.choice([" ", "", "  "]))
             parts.append(r.choice("XYZEFSPTIJRxye"))
             parts.append(r.choice(["1", "1.5", "-2", ".5", "+1.", "", " 3", "10.25", "-0", "007",
                                    "1.", "."]))
         if r.random() < 0.15:
-            parts.append(" *%d" % r.randint(0, 255))
+            parts.append(r.choice([" *%d", " *%d", "*%d", " * %d", " *0%d", "  *%d "]) % r.randint(0, 255))
         if r.random() < 0.2:
             parts.append(r.choice([" ; c", ";", " ;x*3"]))
         return "".join(parts)
@@ -720,9 +722,15 @@ def plugin_case(ops, st0):
                                   label="SETTINGS_UPDATED"))
             elif k == "api":
                 anon, command, data = op[1], op[2], dict(op[3])
+                raised = None
                 with mock.patch("octoprint_excluderegion.current_user", FakeUser(anon)):
-                    resp = unit.on_api_command(command, dict(data))
+                    try:
+                        resp = unit.on_api_command(command, dict(data))
+                    except Exception as exc:  # pylint: disable=broad-except
+                        resp, raised = None, exc
                 status = "ok" if resp is None else str(resp[1])
+                if raised is not None:
+                    status = "raised " + impl.err_kind(raised)      # the model never answers this
                 # protocol line: the region as the constructor normalises it, fresh id if none given
                 rtype = data.get("type")
                 if command == "deleteExcludeRegion":
@@ -747,6 +755,8 @@ def plugin_case(ops, st0):
                                               "add" if command == "addExcludeRegion" else "update",
                                               region_words(spec))
                 steps.append(Step(line, 2, eq(["resp " + status, "pl " + plugin_digest(unit)]), label=repr(op)))
+                if raised is not None:
+                    break
             elif k == "get":
                 with mock.patch("flask.jsonify", side_effect=lambda **kw: kw):
                     payload = unit.on_api_get(None)
@@ -865,7 +875,8 @@ def gen_two_prints(r):
                     {"type": "RectangularRegion", "x1": 10.0, "y1": 10.0, "x2": 20.0, "y2": 20.0, "id": "a"}))
     ops.append(("event", "PRINT_STARTED"))
     prog1 = ["G28", "G1 X5 Y5 Z0.2 F3000", "G1 X6 Y5 E1"]
-    mess = r.sample(["at_off", "inside", "retract_inside", "deferred", "g91", "g20"], r.randint(1, 4))
+    mess = r.sample(["at_off", "inside", "retract_inside", "deferred", "g91", "g20", "m206", "wipe_in"],
+                    r.randint(1, 4))
     for m in mess:
         if m == "at_off":
             prog1.append(("at", "ExcludeRegion", "off", False))
@@ -879,6 +890,13 @@ def gen_two_prints(r):
             prog1.append("G91")
         elif m == "g20":
             prog1.append("G20")
+        elif m == "m206":
+            # home offsets belong to the print that set them
+            prog1.append(r.choice(["M206 X-10 Y-10", "M206 Z1", "M206 X5"]))
+        elif m == "wipe_in":
+            # a move that enters the region while retracting (slicer "wipe"): the enter script and
+            # the generated retraction end up in one returned list
+            prog1 += ["G1 X6 Y6 E2", "G1 X15 Y15 E1.2"]
     for c in prog1:
         if isinstance(c, tuple):
             ops.append(c)
@@ -910,9 +928,18 @@ def gen_plugin_case(r):
         return gen_two_prints(r)
     st0 = rand_settings(r)
     ops = []
-    ids = ["a", "b", "c"]
+    ids = ["a", "b", "c", ""]          # "" : a falsy id is an id like any other
     n = r.randint(3, 25)
-    for _ in range(n):
+    twice = r.randint(0, n) if r.random() < 0.2 else -1
+    for step in range(n):
+        if step == twice:
+            # the same (possibly falsy) id offered twice with different geometry, then deleted
+            rid = r.choice(["", "", "a"])
+            ops.append(("api", False, "addExcludeRegion",
+                        {"type": "RectangularRegion", "x1": 1.0, "y1": 1.0, "x2": 2.0, "y2": 2.0, "id": rid}))
+            ops.append(("api", False, "addExcludeRegion", {"type": "CircularRegion", "cx": 50.0, "cy": 50.0, "r": 3.0, "id": rid}))
+            ops.append(("api", False, "deleteExcludeRegion", {"id": rid}))
+            ops.append(("get",))
         k = r.random()
         if k < 0.22:
             ops.append(("event", r.choice(EVENTS)))
